@@ -35,7 +35,7 @@ func genConfig(r *vk.RNG, a *app.App, sid string) app.Config {
 		cfg.CacheSize = uint32(r.Range(80, 400))
 	}
 	if r.Chance(1, 6) {
-		cfg.MenuSeparator = vk.Pick(r, []string{": ", ")", " - "})
+		cfg.MenuSeparator = vk.Pick(r, []string{": ", ")", " - ", " → ", "・・"})
 	}
 	return cfg
 }
